@@ -210,6 +210,72 @@ def ast_rules(rep):
                 rep.violation("G1-x-guard", key, R.fn_where(f, x), {"function": fkey[:200], "use": obj + ".x()", "guards": gs[-5:],
                                                                     "problem": "row iterator taken from a 2-D iterator without the traversability test of the same range and without a row-bounded count"})
     rep.floor("obligations:G1", 30)
+    # ---- G6 chunk-loop bookkeeping
+    rep.rule("G6 every chunk loop `while (n > 0)` that hands `I.x()` with a count c to a raw algorithm advances every iterator operand of that call by exactly c "
+             "and decreases the remaining count by c, once per iteration and after the call (with L9 of C03: the next chunk starts where this one ended)")
+    seen6 = {}
+    for f in fns:
+        for lp, _ in R.find(f["body"], lambda x: x.get("k") == "While"):
+            cond = R.strip(lp.get("cond"))
+            if cond is None or cond.get("k") != "Binary" or cond.get("op") != ">" or R.key(cond["r"]) != "0":
+                continue
+            nvar = R.key(cond["l"])
+            body = R.strip(lp.get("body"))
+            items = [R.strip(x) for x in body.get("c", [])] if body.get("k") == "Compound" else [body]
+            calls = [(i, x) for i, x in enumerate(items) if x.get("k") == "Call" and R.find(x, lambda y: y.get("k") == "Call" and y["callee"]["name"] == "boost::gil::iterator_from_2d::x")]
+            if not calls:
+                # the raw call may sit inside an `if (!call(...)) return false;`
+                for i, x in enumerate(items):
+                    if x.get("k") == "If" and R.find(x.get("cond"), lambda y: y.get("k") == "Call" and y["callee"]["name"] == "boost::gil::iterator_from_2d::x"):
+                        inner = [y for y, _ in R.find(x["cond"], lambda y: y.get("k") == "Call" and y.get("args") and R.find(y["args"], lambda z: z.get("k") == "Call" and z["callee"]["name"] == "boost::gil::iterator_from_2d::x"))]
+                        if inner:
+                            calls.append((i, inner[0]))
+            if not calls:
+                continue
+            ci, call = calls[0]
+            args = [R.key(a) for a in call.get("args", [])]
+            decls = {}
+            for x in items:
+                if x.get("k") == "Decl":
+                    for dd in x["decls"]:
+                        decls[dd["name"]] = True
+            cnt = [a for a in args if a in decls or a == nvar]
+            iters = []
+            for an, a in zip(call.get("args", []), args):
+                t = (R.strip(an).get("type") or "")
+                if a in cnt:
+                    continue
+                if a.endswith(".x()") or "*" in t or "iterator" in t:
+                    iters.append(re.sub(r"\.x\(\)$", "", a))
+            iters = [a for a in iters if re.fullmatch(r"[A-Za-z_]\w*", a)]
+            upd = {}
+            for j, x in enumerate(items):
+                if x.get("k") in ("CompoundAssign",) or (x.get("k") == "Call" and x.get("op") in ("+=", "-=")):
+                    l = R.key(x.get("l") or x["args"][0])
+                    r = R.key(x.get("r") or x["args"][1])
+                    upd.setdefault(l, []).append((x.get("op"), r, j))
+            fkey = "G6:%s<%s>" % (f["name"].replace("boost::gil::", ""), sig(f)[:70])
+            prob = []
+            if len(cnt) != 1:
+                prob.append("count argument of the raw call not identified: %s" % args)
+            else:
+                c = cnt[0]
+                for it in iters:
+                    u = upd.get(it, [])
+                    if len(u) != 1 or u[0][0] != "+=" or u[0][1] != c or u[0][2] < ci:
+                        prob.append("%s is advanced by %s (expected once: %s += %s after the call)" % (it, [(o, r) for o, r, _ in u], it, c))
+                u = upd.get(nvar, [])
+                if len(u) != 1 or u[0][0] != "-=" or u[0][1] != c or u[0][2] < ci:
+                    prob.append("%s is updated by %s (expected once: %s -= %s after the call)" % (nvar, [(o, r) for o, r, _ in u], nvar, c))
+            if fkey not in seen6 or (not seen6[fkey][0] and prob):
+                seen6[fkey] = (prob, R.fn_where(f, lp), args)
+    for fkey, (prob, where, args) in sorted(seen6.items()):
+        rep.count("obligations:G6")
+        if prob:
+            rep.violation("G6-chunk-loop", fkey, where, {"raw_call_arguments": args, "problems": prob})
+        else:
+            rep.ok("G6-chunk-loop", fkey, args)
+    rep.floor("obligations:G6", 5)
     # ---- G3 byte-wise fast paths
     rep.rule("G3 memcmp/memmove/memcpy byte count == n * sizeof(pointee of the compared pointers); planar variant loops over mp_size<ColorSpace> planes")
     for f in fns:
